@@ -105,6 +105,40 @@ pub fn perturb(l: &Layout, fi: usize) -> Vec<(String, Layout)> {
         nf.ranges[1].hi += 2;
         push("list-reversed-range-compensated", nf, None);
     }
+    // adversarial literals: numbers chosen so that the macro's own usize arithmetic wraps around when it is
+    // built without overflow checks
+    if let Some(a) = &f.array {
+        if f.ranges.len() == 1 {
+            let end = f.ranges[0].hi as u64 + 1;
+            // K = 2: stride = 2^64 - end  => (K-1)*stride + end == 2^64 == 0 (mod 2^64)
+            let mut nf = f.clone();
+            nf.array = Some(ArrayDecl { count: 2, stride: Some(a.stride.unwrap_or(w).max(1)), colon: a.colon });
+            nf.huge = Some(Huge { part: "stride".into(), value: 0u64.wrapping_sub(end) });
+            push("huge-stride-wraps-k2", nf, None);
+            // K = 3: stride = 2^63 => 2*stride == 0 (mod 2^64)
+            let mut nf = f.clone();
+            nf.array = Some(ArrayDecl { count: 3, stride: Some(a.stride.unwrap_or(w).max(1)), colon: a.colon });
+            nf.huge = Some(Huge { part: "stride".into(), value: 1u64 << 63 });
+            push("huge-stride-wraps-k3", nf, None);
+        }
+    }
+    if !matches!(f.ty, FieldTy::Bool) && f.ranges.iter().all(|r| r.lo <= r.hi) {
+        // a first range `1..=u64::MAX` has length -1 after wrap-around; the last range is widened by one bit
+        let mut nf = f.clone();
+        nf.kw_bit = false;
+        nf.list = true;
+        nf.ranges.insert(0, Rng { lo: 1, hi: 1, short: false });
+        let last = nf.ranges.len() - 1;
+        nf.ranges[last].hi += 1;
+        nf.ranges[last].short = false;
+        nf.huge = Some(Huge { part: "hi0".into(), value: u64::MAX });
+        if let Some(arr) = nf.array.as_mut() {
+            if arr.stride.is_none() {
+                arr.stride = Some(w.max(1));
+            }
+        }
+        push("huge-range-end-wraps", nf, None);
+    }
     // R2: range one bit wider / narrower with the same type
     {
         let last = f.ranges.len() - 1;
